@@ -230,6 +230,11 @@ CHECKS = {
               dict(apalache="VanityInd", tag="VanityInd_N3", cinit="ConstInit", init="Init", indinit="IndInit", inv="IndInv"),
               dict(apalache="VanityInd", tag="VanityInd_N6", cinit="ConstInit6", init="Init", indinit="IndInit", inv="IndInv",
                    tiers=("thorough",)),
+              # the machine WITH the judge's observer: JudgeSound as part of an inductive invariant, unbounded requests
+              dict(apalache="VanityObsInd", tag="VanityObsInd_N3", cinit="ConstInit", init="Init", indinit="IndInit", inv="IndInv",
+                   timeout=3000),
+              dict(apalache="VanityObsInd", tag="VanityObsInd_N4", cinit="ConstInit4", init="Init", indinit="IndInit", inv="IndInv",
+                   tiers=("thorough",), timeout=14000),
               # every number of workers, every candidate space, unbounded requests: machine-checked proof
               dict(tlaps="VanityProof", tag="VanityProof")],
         gen=[dict(module="Gen_C18", slices=dict(quick=8, thorough=8), profiles=dict(quick=["dev"], thorough=["dev", "release"])),
@@ -239,7 +244,10 @@ CHECKS = {
              "granted match, the judge's observer fold admits every behaviour (no false alarm), pending messages lead "
              "to exit (liveness under weak fairness); Apalache discharges the inductive invariant VanityInd!IndInv (Init => Inv, "
              "Inv /\\ Next => Inv') for 3 (thorough: 6) workers WITHOUT a bound on the number of requests: a printed phrase is a "
-             "granted match in every reachable state; TLAPS checks a proof (spec/tlaps/VanityProof.tla, 106 obligations) of "
+             "granted match in every reachable state; Apalache also discharges VanityObsInd!IndInv, an inductive invariant of "
+             "the machine TOGETHER WITH the judge's observer that contains JudgeSound (every request passes the judge's guard, "
+             "every exit is one the judge admits) without a bound on the requests, for 3 (thorough: 4) workers - the observer "
+             "operators are shared with MC_Vanity, where TLC checks that they agree with those of Vanity.tla; TLAPS checks a proof (spec/tlaps/VanityProof.tla, 106 obligations) of "
              "the same safety property and of 'nothing is printed unless the run exits through printed' for EVERY number of "
              "workers and candidates; MC_Prefix: prefix grammar over all strings <= 4 over "
              "{0..9 a f A F g x}; Gen_C18: real searches under the entropy shim: 22 single digits x -j {0,1,2,16}, "
